@@ -2,6 +2,8 @@ mod array_range_set;
 mod btree_range_set;
 #[cfg(test)]
 mod tests;
+#[cfg(feature = "__verif")]
+pub(crate) mod verif_comp;
 
 pub(crate) use array_range_set::ArrayRangeSet;
 pub(crate) use btree_range_set::RangeSet;
